@@ -118,6 +118,9 @@ func same(a, b []string) bool {
 // fragment cut anywhere still carries it
 func tagOf(line string, n int) int {
 	if line == "" {
+		if n == 1 {
+			return 0 // a bare newline of the only writer
+		}
 		return n
 	}
 	t := int(line[0]) - 'A'
@@ -177,12 +180,19 @@ func execute(dir string, n int, c *scase, delays [][]time.Duration, cancelAfter 
 
 	// writers
 	var ww sync.WaitGroup
+	var werrMu sync.Mutex
 	timeout := waitTimeout
 	if len(c.Writers) == 0 {
 		timeout = 3 * time.Second
 	}
 	for i, w := range c.Writers {
 		var conn wc
+		werrMu.Lock()
+		np := len(problems)
+		werrMu.Unlock()
+		if np > 0 {
+			break // a writer could not connect or write: the case is over
+		}
 		switch c.Kind {
 		case "fifo":
 			f, err := os.OpenFile(addr, os.O_WRONLY, 0)
@@ -192,14 +202,43 @@ func execute(dir string, n int, c *scase, delays [][]time.Duration, cancelAfter 
 			conn = stdinW
 		default:
 			cn, err := net.Dial(network, addr)
-			must(err)
+			if err != nil {
+				// only acceptable if the stream has already gone away (which
+				// the check before the cancellation then reports)
+				time.Sleep(2 * time.Millisecond)
+				select {
+				case <-done:
+					werrMu.Lock()
+					problems = append(problems, fmt.Sprintf("dial-error: writer %d: %v", i, err))
+					werrMu.Unlock()
+				default:
+					must(err)
+				}
+				break
+			}
 			conn = cn
+		}
+		if conn == nil {
+			break
 		}
 		ww.Add(1)
 		go func(i int, w wspec, conn wc) {
 			defer ww.Done()
 			for j, ch := range w.Chunks {
-				if _, err := conn.Write([]byte(vlib.UnQ(ch))); err != nil {
+				data := []byte(vlib.UnQ(ch))
+				_, err := conn.Write(data)
+				for try := 0; err != nil && len(data) == 0 && try < 300 && !c.CancelEarly; try++ {
+					// Go returns EAGAIN for a zero-length write to a full
+					// datagram queue instead of waiting: try again
+					time.Sleep(100 * time.Microsecond)
+					_, err = conn.Write(data)
+				}
+				if err != nil {
+					if !c.CancelEarly {
+						werrMu.Lock()
+						problems = append(problems, fmt.Sprintf("write-error: writer %d write %d: %v", i, j, err))
+						werrMu.Unlock()
+					}
 					break // the stream was cancelled under us
 				}
 				if d := delays[i][j]; d > 0 {
@@ -260,6 +299,9 @@ func execute(dir string, n int, c *scase, delays [][]time.Duration, cancelAfter 
 			}
 		}
 	}
+	if !c.CancelEarly && isDone() && !c.SelfEnded {
+		problems = append(problems, "ended: the channel closed although the stream was neither cancelled nor (a pipe) abandoned by its writer")
+	}
 	cancel()
 	ended := waitFor("the channel closes after cancellation", isDone)
 	if ended {
@@ -273,6 +315,11 @@ func execute(dir string, n int, c *scase, delays [][]time.Duration, cancelAfter 
 	}
 	ww.Wait()
 	c.Ended = ended
+	for _, p := range problems {
+		if strings.HasPrefix(p, "ended:") {
+			c.Ended = false // for the model an uncalled-for end is no proper end
+		}
+	}
 	mu.Lock()
 	for _, l := range got {
 		c.Got = append(c.Got, tline{tagOf(l, len(c.Writers)), vlib.Q(l)})
@@ -422,6 +469,11 @@ func judge(c *scase, problems []string) (class, what string) {
 			return "stream-does-not-end", p
 		}
 	}
+	for _, p := range problems {
+		if strings.HasPrefix(p, "ended:") {
+			return "stream-ends-without-cancellation", p
+		}
+	}
 	for _, t := range c.Got {
 		if t.Tag >= n {
 			return "line-of-no-writer", fmt.Sprintf("line %s carries no writer's tag (merged or garbled)", t.Line)
@@ -499,10 +551,13 @@ func payload(rng *vlib.Rand) string {
 	return string(b)
 }
 
-func genWriter(rng *vlib.Rand, i int, wholeLineChunks, tail bool) (chunks []string) {
+func genWriter(rng *vlib.Rand, i int, wholeLineChunks, tail, bareNewlines bool) (chunks []string) {
 	nl := 1 + rng.Intn(6)
 	var lines []string
 	for s := 0; s < nl; s++ {
+		if bareNewlines && rng.Chance(15) {
+			lines = append(lines, "\n") // an empty line: carries no tag, only sent by a sole writer
+		}
 		l := fmt.Sprintf("%c%d:%s", 'A'+i, s, payload(rng))
 		if rng.Chance(20) {
 			l += "\r"
@@ -651,13 +706,22 @@ func main() {
 					closes = false
 				}
 				w := wspec{Closes: closes}
-				chunks := genWriter(rng, i, whole, tail)
+				chunks := genWriter(rng, i, whole, tail, nw == 1)
 				if !closes && tail && rng.Chance(70) {
 					for len(chunks) > 1 && !strings.Contains(chunks[len(chunks)-1], "\n") {
 						chunks[len(chunks)-2] += chunks[len(chunks)-1]
 						chunks = chunks[:len(chunks)-1]
 					}
 					w.TailRead = strings.Contains(chunks[len(chunks)-1], "\n")
+				}
+				if isDgram(kind) && rng.Chance(60) {
+					// zero-length datagrams between (never after) the data
+					// datagrams: they deliver nothing and change nothing
+					ne := 1 + rng.Intn(3)
+					for e := 0; e < ne; e++ {
+						at := rng.Intn(len(chunks))
+						chunks = append(chunks[:at], append([]string{""}, chunks[at:]...)...)
+					}
 				}
 				w.Chunks = vlib.Qs(chunks)
 				c.Writers = append(c.Writers, w)
@@ -675,6 +739,21 @@ func main() {
 			vlib.WriteJSON(inflight, c)
 			problems := execute(dir, n, c, delays, cancelAfter)
 			n++
+			skipped, gone := false, false
+			for _, p := range problems {
+				gone = gone || strings.HasPrefix(p, "ended:")
+			}
+			for _, p := range problems {
+				if strings.HasPrefix(p, "write-error:") && !gone {
+					// the harness could not deliver its own input: inconclusive
+					fmt.Fprintln(os.Stderr, "c17: case skipped:", kind, p)
+					out.Count("skipped/write-error/" + kind)
+					skipped = true
+				}
+			}
+			if skipped {
+				continue
+			}
 			if cl, what := judge(c, problems); cl != "" {
 				out.Violate(cl+"/"+kind, what, c)
 				timedOut := false
